@@ -297,6 +297,7 @@ impl<'a, 'tcx> M<'a, 'tcx> {
                     other => J::k("otherstmt").with("dbg", J::s(format!("{:?}", other))),
                 };
                 so.put("sp", self.cx.span(st.source_info.span));
+                so.put("se", self.cx.span_end(st.source_info.span));
                 if let Some(x) = self.cx.expn_inner(st.source_info.span) {
                     so.put("exp", J::s(x));
                 }
@@ -372,6 +373,7 @@ impl<'a, 'tcx> M<'a, 'tcx> {
                 other => J::k("otherterm").with("dbg", J::s(format!("{:?}", other))),
             };
             to.put("sp", self.cx.span(term.source_info.span));
+            to.put("se", self.cx.span_end(term.source_info.span));
             if let Some(x) = self.cx.expn_inner(term.source_info.span) {
                 to.put("exp", J::s(x));
             }
